@@ -65,7 +65,8 @@ type FuncContract struct {
 }
 
 type CallsiteClause struct {
-	Callee string // e.g. strings.Repeat
+	Callee  string // e.g. strings.Repeat
+	Ordinal int    // callee#k: only the k-th call (1-based, source order) of the callee in the function; 0 = every call
 	Params []string
 	Clause Clause
 }
@@ -129,7 +130,7 @@ var (
 	reLabel    = regexp.MustCompile(`^([a-zA-Z_][a-zA-Z0-9_]*):\s+(.*)$`)
 	reLoopHdr  = regexp.MustCompile(`^loop\s+(\d+)\s*:?\s*$`)
 	reBind     = regexp.MustCompile(`^bind\s+([\w\.\(\)\*]+)\.(\w+)\s*=\s*(.*)$`)
-	reCallsite = regexp.MustCompile(`^callsite\s+([\w\.\(\)\*]+)\s*\(([^)]*)\)\s+requires\s+(.*)$`)
+	reCallsite = regexp.MustCompile(`^callsite\s+([\w\.\(\)\*]+)(#\d+)?\s*\(([^)]*)\)\s+requires\s+(.*)$`)
 )
 
 var clauseKeywords = map[string]bool{"func": true, "spec": true, "lemma": true, "property": true, "ghost": true, "requires": true,
@@ -475,17 +476,21 @@ func (cs *Contracts) ParseFile(path, pkgName string) error {
 			if m == nil || curF == nil {
 				return fail(l, "bad callsite %q", t)
 			}
-			c, err := mkClause(l, m[3])
+			c, err := mkClause(l, m[4])
 			if err != nil {
 				return err
 			}
 			var ps []string
-			for _, p := range strings.Split(m[2], ",") {
+			for _, p := range strings.Split(m[3], ",") {
 				if p = strings.TrimSpace(p); p != "" {
 					ps = append(ps, p)
 				}
 			}
-			curF.Callsite = append(curF.Callsite, CallsiteClause{Callee: m[1], Params: ps, Clause: c})
+			ord := 0
+			if m[2] != "" {
+				ord, _ = strconv.Atoi(m[2][1:])
+			}
+			curF.Callsite = append(curF.Callsite, CallsiteClause{Callee: m[1], Ordinal: ord, Params: ps, Clause: c})
 		default:
 			return fail(l, "unknown clause %q", kw)
 		}
